@@ -230,7 +230,7 @@ theorem ipvCopyCtor_eq {cap : Nat} (k : Kind) (o : V) (h : o.length ≤ cap) :
        rw [if_neg (by omega)])
 
 theorem ipvMoveCtor_eq {cap : Nat} (k : Kind) (o : V) (h : o.length ≤ cap) :
-    ipvMoveCtor cap k o = .ok (o, match k with | .triv => o | _ => []) := by
+    ipvMoveCtor cap k o = .ok (o, match k with | .triv | .kp => o | _ => []) := by
   unfold ipvMoveCtor
   cases k <;> first
     | rfl
